@@ -1055,14 +1055,32 @@ def schedules(ctx):
     """C14 on the implementation: every 'T2 runs atomically after k source lines of T1' schedule (all k, both orders) and
     random fine-grained schedules, for pairs of calls routed to the same shared objects."""
     pairs = c14_pairs(ctx)
-    job = {"pairs": pairs, "seed": ctx.seed, "random_schedules": 3 if ctx.quick else 12}
     env = dict(os.environ)
     env.update({"PYTHONPATH": os.environ.get("VERIF_REPO", "/repo"), "PYTHONHASHSEED": "0"})
-    r = subprocess.run(["/venv/bin/python", os.path.join(HERE, "sched.py"), "explore"], input=json.dumps(job),
-                       capture_output=True, text=True, env=env, timeout=3000)
-    if r.returncode != 0:
-        return {"ok": False, "cases": 0, "detail": "sched.py failed: " + r.stderr[-400:]}
-    out = json.loads(r.stdout.strip().splitlines()[-1])
+    # the pairs are independent: explore them in parallel processes (each process is still fully deterministic)
+    nshards = max(1, min(12, len(pairs) // 4))
+    procs = []
+    for i in range(nshards):
+        job = {"pairs": pairs[i::nshards], "seed": ctx.seed + i, "random_schedules": 3 if ctx.quick else 12}
+        pr = subprocess.Popen(["/venv/bin/python", os.path.join(HERE, "sched.py"), "explore"], stdin=subprocess.PIPE,
+                              stdout=subprocess.PIPE, stderr=subprocess.PIPE, text=True, env=env)
+        pr.stdin.write(json.dumps(job))
+        pr.stdin.close()
+        procs.append(pr)
+    out = {"runs": 0, "pairs": 0, "fails": []}
+    for pr in procs:
+        try:
+            pr.wait(timeout=3000)
+        except subprocess.TimeoutExpired:
+            pr.kill()
+            return {"ok": False, "cases": out["runs"], "detail": "sched.py timed out"}
+        so, se = pr.stdout.read(), pr.stderr.read()
+        if pr.returncode != 0 or not so.strip():
+            return {"ok": False, "cases": out["runs"], "detail": "sched.py failed: " + se[-400:]}
+        o = json.loads(so.strip().splitlines()[-1])
+        out["runs"] += o["runs"]
+        out["pairs"] += o["pairs"]
+        out["fails"].extend(o["fails"])
     ctx.cache["sched_stats"] = {"pairs": out["pairs"], "schedules": out["runs"]}
     if out["fails"]:
         f = out["fails"][0]
